@@ -68,6 +68,7 @@ class Connection(BaseProtocol):
         self.authrand = os.urandom(4)
 
         self._deadline_timer = None
+        self._lookups_pending = 0
 
         super().__init__()
 
@@ -156,12 +157,14 @@ class Connection(BaseProtocol):
         if inspect.isawaitable(akrow):
             task = asyncio.ensure_future(akrow)
             task.add_done_callback(lambda task: self.on_auth_result(task, ident, secret))
+            self._lookups_pending += 1
             self.transport.pause_reading()
             return True
 
         self.authenticate(ident, secret, akrow)
 
     def on_auth_result(self, task, ident, secret):
+        self._lookups_pending -= 1
         try:
             akrow = task.result()
         except Exception:
@@ -211,7 +214,10 @@ class Connection(BaseProtocol):
         CONNECTION_READY.labels(ident).inc()
 
         self.process_pending()
-        self.transport.resume_reading()
+        if not self._lookups_pending:
+            # A further OP_AUTH among the queued messages may have started
+            # another lookup: keep reading paused until that one completes too
+            self.transport.resume_reading()
 
     def on_publish(self, ident, chan, payload):
         if not ident == self.ak:
